@@ -544,6 +544,13 @@ class VArr:
 
     def astype(self, dt, **k):
         dt = _dtype_name(dt)
+        cp = k.pop("copy", True)
+        if set(k) - {"casting", "order", "subok"}:
+            raise Unsupported("astype options")
+        if isinstance(cp, Sym):
+            raise Unsupported("symbolic copy flag")
+        if not cp and dt == self.dtype_name:
+            return self  # astype(copy=False) with an unchanged dtype returns the array itself: later writes hit the same buffer
         cur().event("arr-astype", self.buf, dt)
         return VArr(z3.simplify(_cast_term(self.term, self.dtype_name, dt)), dt, self.space)
 
